@@ -12,6 +12,8 @@ import (
 	"math/big"
 	"strconv"
 	"strings"
+
+	"golang.org/x/tools/go/ssa"
 )
 
 type TV struct {
@@ -627,6 +629,34 @@ func (e *Env) call(n *ast.CallExpr) TV {
 		v := e.eval(n.Args[0])
 		return TV{V: Resize(v.V.(*Term), 128, true), Signed: true}
 	}
+	if id.Name == "pure" {
+		// pure(F, j, args...): the j-th result of the pure function F (contract directive `pure`) on args
+		fid, ok := n.Args[0].(*ast.Ident)
+		jl, ok2 := n.Args[1].(*ast.BasicLit)
+		if !ok || !ok2 || len(n.Args) < 2 {
+			return e.fail("pure(F, j, args...) expects a function name and a result index")
+		}
+		j, _ := strconv.Atoi(jl.Value)
+		key := e.scopePkg().Name() + "." + fid.Name
+		f := e.ex.eng.lookupFunc(key)
+		if f == nil || j >= f.Signature.Results().Len() {
+			return e.fail("pure: unknown function or result %s#%d", fid.Name, j)
+		}
+		rt := f.Signature.Results().At(j).Type()
+		so := sortOf(rt)
+		if so == nil {
+			return e.fail("pure: result %d of %s is not a scalar", j, fid.Name)
+		}
+		var flat []*Term
+		for _, a := range n.Args[2:] {
+			v := e.eval(a)
+			if t, isT := v.V.(*Term); isT && k2param(f, len(flat)) != nil {
+				_ = t
+			}
+			e.ex.flattenEq(e.st, coerceArg(v, f, len(n.Args[2:]), a, n.Args[2:]), &flat)
+		}
+		return TV{V: App("pure."+key+fmt.Sprintf(".res%d", j), so, flat...), Signed: isSigned(rt)}
+	}
 	switch id.Name {
 	case "rok", "rval", "rp":
 		// result functions of a deterministic reader: rok(F, data), rval(F, data), rp(F, data)
@@ -780,3 +810,25 @@ func init() {
 }
 
 func (e *Env) errString() string { return strings.Join(e.errs, "; ") }
+
+func k2param(f *ssa.Function, k int) *ssa.Parameter { return nil }
+
+// coerceArg: a scalar argument of pure(...) takes the width of the corresponding parameter.
+func coerceArg(v TV, f *ssa.Function, nargs int, a ast.Expr, all []ast.Expr) Value {
+	t, ok := v.V.(*Term)
+	if !ok {
+		return v.V
+	}
+	idx := -1
+	for k := range all {
+		if all[k] == a {
+			idx = k
+		}
+	}
+	if idx >= 0 && idx < len(f.Params) {
+		if so := sortOf(f.Params[idx].Type()); so != nil && so.Kind == KBV && t.Sort.Kind == KBV && so.W != t.Sort.W {
+			return Resize(t, so.W, v.Signed)
+		}
+	}
+	return t
+}
